@@ -160,7 +160,7 @@ def _states_base(tier, seed):
     # unusual card values (every option x card flavour x every sequence of length <= 2) on two schemes
     for opt, (fns, nf), flavour in itertools.product(OPTS, [("ZM-VFNS", 3), ("FONLL-FFNS", 4)], ["legacy", "modern"]):
         tkey = "dict" if opt in ("ew", "positivity") else "name"
-        proj = {"name": "neutrino", "dict": "positron", "proton": "electron"}[tkey]
+        proj = {"name": "antineutrino", "dict": "positron", "proton": "electron"}[tkey]
         for n in (1, 2):
             for seq in itertools.product(OPS, repeat=n):
                 out.append({"fns": fns, "nfff": nf, "target": tkey, "flavour": flavour, "projectile": proj, "seq": list(seq), "opt": opt})
